@@ -2,10 +2,8 @@ package main
 
 import (
 	"fmt"
-	"go/ast"
 	"go/token"
 	"go/types"
-	"regexp"
 	"sort"
 	"strings"
 
@@ -19,7 +17,7 @@ func init() {
 		id:    "C15",
 		title: "AFM metrics survive writing and reading",
 		explanation: "Decides the field- and keyword-symmetry clauses of C15: the set of Metrics, GlyphInfo and KernPair fields the reader stores equals the set the writer (with the query methods it calls) loads; every keyword the writer emits for a data field is a keyword the reader handles and both sides connect it to the same field; the numeric verb the writer uses for a field produces text the reader's parser for that field accepts; every format string handed to the writer's formatting helper is a constant (data never takes the format position); " +
-			"the character-metrics section is parsed key by key from `;`-separated fields without any filter on the layout of the line, so that an independent writer's spacing and field order are understood; header keywords are matched on the first white-space separated field. Ligature order and determinism are C17's. " +
+			"the character-metrics section is parsed key by key from `;`-separated fields without any filter on the layout of the line, so that an independent writer's spacing and field order are understood; header and section keywords are recognised whatever white space surrounds them (each line the writer can produce, and its layout variants, is evaluated through one iteration of the reader's line loop); whether a line is written depends on the data only through the absence of what the line carries, and glyph and kerning loops range over the whole lists. Ligature order and determinism are C17's. " +
 			"It does NOT decide equality of metrics nor idempotence of a second cycle.",
 		trusted:     []string{"go/ssa field accesses, fmt verb semantics table in the checker"},
 		assumptions: []string{"numbers are finite"},
@@ -28,7 +26,6 @@ func init() {
 }
 
 func runC15(c *Ctx) {
-	info := c.info("afm")
 	read := c.fn("afm", "Read")
 	write := c.method("afm", "Metrics", "Write")
 	c.historyIndependence("AFM-HISTORY", 10, read, write)
@@ -69,6 +66,29 @@ func runC15(c *Ctx) {
 				for tn, T := range types3 {
 					if pointsTo(x.X.Type(), T) {
 						st := x.X.Type().Underlying().(*types.Pointer).Elem().Underlying().(*types.Struct)
+						// the address is kept (in a table, a variable, an argument): the field is
+						// filled through it
+						for _, r := range *x.Referrers() {
+							switch r := r.(type) {
+							case *ssa.MapUpdate:
+								if r.Value == x {
+									stores[tn+"."+st.Field(x.Field).Name()] = true
+								}
+							case *ssa.Store:
+								if r.Val == x {
+									stores[tn+"."+st.Field(x.Field).Name()] = true
+								}
+							case *ssa.MakeInterface, *ssa.Phi:
+								stores[tn+"."+st.Field(x.Field).Name()] = true
+							case ssa.CallInstruction:
+								// handed to a function that fills it (Sscan, a parsing helper …)
+								for _, a := range r.Common().Args {
+									if a == x {
+										stores[tn+"."+st.Field(x.Field).Name()] = true
+									}
+								}
+							}
+						}
 						// only if used for reading sub-fields
 						reads := false
 						for _, r := range *x.Referrers() {
@@ -126,349 +146,13 @@ func runC15(c *Ctx) {
 	c.check(len(onlyWritten) == 0, "AFM-FIELDS", "afm.Read / afm.(*Metrics).Write", "every field the writer uses is filled by the reader", token.NoPos, fmt.Sprintf("%d fields", len(loaded)), "the writer loads "+strings.Join(onlyWritten, ", ")+" which the reader never stores")
 	c.check(len(stored) >= 18, "AFM-FIELDS", "afm.Read", "field inventory", token.NoPos, fmt.Sprint(len(stored)), "fewer fields than expected are stored by the reader; the rule has lost its anchor")
 
-	// ---- writer: format strings and (keyword → field, verb)
-	wfd := c.funcDecl("afm", "Metrics", "Write")
-	type wrec struct {
-		kw, verb, field string
-		pos             token.Pos
-	}
-	var wrecs []wrec
-	var nonConst []string
-	var helper types.Object
-	ast.Inspect(wfd.Body, func(n ast.Node) bool {
-		if as, ok := n.(*ast.AssignStmt); ok && as.Tok == token.DEFINE && len(as.Rhs) == 1 {
-			if _, ok := as.Rhs[0].(*ast.FuncLit); ok && helper == nil {
-				helper = info.Defs[as.Lhs[0].(*ast.Ident)]
-			}
-		}
-		return true
-	})
-	verbRe := regexp.MustCompile(`%[-+# 0]*[0-9]*(\.[0-9]+)?[a-zA-Z]`)
-	fieldOfArg := func(e ast.Expr) string {
-		// m.X, g.X, k.X → X ; strconv.FormatFloat(m.X,…) → X (float text)
-		if call, ok := e.(*ast.CallExpr); ok && len(call.Args) > 0 {
-			if types.ExprString(call.Fun) == "strconv.FormatFloat" {
-				if sel, ok := call.Args[0].(*ast.SelectorExpr); ok {
-					return sel.Sel.Name + "@FormatFloat"
-				}
-			}
-		}
-		if sel, ok := e.(*ast.SelectorExpr); ok {
-			return sel.Sel.Name
-		}
-		return ""
-	}
-	handleFormat := func(format string, args []ast.Expr, pos token.Pos) {
-		// split into `;`-separated groups for the char metrics line, else one group
-		groups := []string{format}
-		if strings.Contains(format, ";") {
-			groups = strings.Split(format, ";")
-		}
-		ai := 0
-		for _, g := range groups {
-			g = strings.TrimSpace(g)
-			if g == "" {
-				continue
-			}
-			kw := strings.Fields(g)[0]
-			verbs := verbRe.FindAllString(g, -1)
-			for _, v := range verbs {
-				field := ""
-				if ai < len(args) {
-					field = fieldOfArg(args[ai])
-				}
-				ai++
-				wrecs = append(wrecs, wrec{kw, v, field, pos})
-			}
-			if len(verbs) == 0 {
-				wrecs = append(wrecs, wrec{kw, "", "", pos})
-			}
-		}
-	}
-	// a formatting helper: any function value of the shape func(format string, args ...any) …
-	isFormatFunc := func(e ast.Expr) bool {
-		sig, ok := info.TypeOf(e).Underlying().(*types.Signature)
-		if !ok || !sig.Variadic() || sig.Params().Len() != 2 {
-			return false
-		}
-		b, ok := sig.Params().At(0).Type().Underlying().(*types.Basic)
-		return ok && b.Kind() == types.String
-	}
-	var wbodies []ast.Node
-	for _, d := range c.declsFrom("afm", wfd, 2) {
-		wbodies = append(wbodies, d.Body)
-	}
-	inspectAll := func(f func(n ast.Node) bool) {
-		for _, b := range wbodies {
-			ast.Inspect(b, f)
-		}
-	}
-	inspectAll(func(n ast.Node) bool {
-		call, ok := n.(*ast.CallExpr)
-		if !ok || len(call.Args) == 0 {
-			return true
-		}
-		isHelper := false
-		if id, ok := call.Fun.(*ast.Ident); ok && helper != nil && info.ObjectOf(id) == helper {
-			isHelper = true
-		}
-		if _, isSel := call.Fun.(*ast.SelectorExpr); !isSel && isFormatFunc(call.Fun) {
-			isHelper = true
-		}
-		name := types.ExprString(call.Fun)
-		if !isHelper && name != "fmt.Sprintf" && name != "fmt.Fprintf" {
-			return true
-		}
-		fa := call.Args[0]
-		if name == "fmt.Fprintf" {
-			// inside the helper: format+"\n" with format the helper's parameter
-			if len(call.Args) < 2 {
-				return true
-			}
-			fa = call.Args[1]
-			if be, ok := fa.(*ast.BinaryExpr); ok && be.Op == token.ADD {
-				if id, ok := be.X.(*ast.Ident); ok {
-					if _, isParam := info.ObjectOf(id).(*types.Var); isParam {
-						if _, ok := constStrOf(info, be.Y); ok {
-							return true // the helper itself
-						}
-					}
-				}
-			}
-		}
-		s, isConst := constStrOf(info, fa)
-		if !isConst {
-			nonConst = append(nonConst, types.ExprString(fa)+" at "+c.pos(call.Pos()))
-			return true
-		}
-		if s == "%s" {
-			return true // pre-formatted line
-		}
-		rest := call.Args[1:]
-		if name == "fmt.Fprintf" {
-			rest = call.Args[2:]
-		}
-		handleFormat(s, rest, call.Pos())
-		return true
-	})
-	c.check(len(nonConst) == 0, "AFM-FORMAT", "afm.(*Metrics).Write", "every format string is a constant", wfd.Pos(), fmt.Sprintf("%d formatted writes", len(wrecs)), "data is used in the format position ("+joinMax(nonConst, 3)+"): a `%` in a name, version or notice is then interpreted as a verb and garbles the output")
+	// ---- writer: formatted writes (format constant, operands traced to their fields)
+	events, nonConst := c.afmWriterEvents(write)
+	wname := c.fname(write)
+	c.check(len(nonConst) == 0, "AFM-FORMAT", wname, "every format string is a constant", write.Pos(), fmt.Sprintf("%d formatted writes", len(events)), "data is used in the format position ("+joinMax(nonConst, 3)+"): a `%` in a name, version or notice is then interpreted as a verb and garbles the output")
 
-	// ---- reader: keyword → field, parser
-	rfd := c.funcDecl("afm", "", "Read")
-	type rrec struct{ field, parser string }
-	reader := map[string]rrec{}
-	afmDecls := map[types.Object]*ast.FuncDecl{}
-	for _, f := range c.pkg("afm").Syntax {
-		for _, d := range f.Decls {
-			if x, ok := d.(*ast.FuncDecl); ok && x.Body != nil {
-				afmDecls[info.Defs[x.Name]] = x
-			}
-		}
-	}
-	var parserOf func(n ast.Node) string
-	parserOf = func(n ast.Node) string {
-		p := ""
-		ast.Inspect(n, func(m ast.Node) bool {
-			if call, ok := m.(*ast.CallExpr); ok {
-				// a helper of the package: what it parses with is what the clause parses with
-				if id, ok := call.Fun.(*ast.Ident); ok {
-					if d := afmDecls[info.Uses[id]]; d != nil && p == "" {
-						if q := parserOf(d.Body); q != "word" {
-							p = q
-						}
-					}
-				}
-				switch types.ExprString(call.Fun) {
-				case "strconv.Atoi":
-					p = "Atoi"
-				case "strconv.ParseFloat", "conv":
-					if p == "" {
-						p = "ParseFloat"
-					}
-				case "strings.Join":
-					if p == "" {
-						p = "words"
-					}
-				}
-			}
-			if be, ok := m.(*ast.BinaryExpr); ok && be.Op == token.EQL {
-				if s, ok := constStrOf(info, be.Y); ok && s == "true" && p == "" {
-					p = "bool"
-				}
-			}
-			return true
-		})
-		if p == "" {
-			p = "word"
-		}
-		return p
-	}
-	isMetricsLike := func(e ast.Expr) bool {
-		t := info.TypeOf(e)
-		if t == nil {
-			return false
-		}
-		if pt, ok := t.Underlying().(*types.Pointer); ok {
-			t = pt.Elem()
-		}
-		nt, ok := t.(*types.Named)
-		if !ok {
-			return false
-		}
-		switch nt.Obj().Name() {
-		case "Metrics", "GlyphInfo", "KernPair", "Rect16", "Rect":
-			return true
-		}
-		return false
-	}
-	fieldStored := func(n ast.Node) string {
-		f := ""
-		ast.Inspect(n, func(m ast.Node) bool {
-			if as, ok := m.(*ast.AssignStmt); ok {
-				for _, l := range as.Lhs {
-					if sel, ok := l.(*ast.SelectorExpr); ok {
-						if isMetricsLike(sel.X) {
-							if f == "" {
-								f = sel.Sel.Name
-							}
-						}
-					}
-					if id, ok := l.(*ast.Ident); ok && f == "" {
-						switch id.Name {
-						case "code":
-							f = "Encoding"
-						case "width":
-							f = "WidthX"
-						case "name":
-							f = "name"
-						}
-					}
-					if ix, ok := l.(*ast.IndexExpr); ok && types.ExprString(ix.X) == "ligTmp" && f == "" {
-						f = "Ligatures"
-					}
-				}
-			}
-			return true
-		})
-		return f
-	}
-	ast.Inspect(rfd.Body, func(n ast.Node) bool {
-		sw, ok := n.(*ast.SwitchStmt)
-		if !ok || sw.Tag == nil {
-			return true
-		}
-		for _, cc := range sw.Body.List {
-			cl := cc.(*ast.CaseClause)
-			for _, e := range cl.List {
-				if kw, ok := constStrOf(info, e); ok {
-					reader[kw] = rrec{fieldStored(cl), parserOf(cl)}
-				}
-			}
-		}
-		return true
-	})
-	// KPX and the section markers
-	rtxt := nodeString(c, rfd.Body)
-	if strings.Contains(rtxt, `fields[0] == "KPX"`) {
-		reader["KPX"] = rrec{"Kern", "Atoi"}
-	}
-	for _, m := range []string{"EndCharMetrics", "EndKernPairs"} {
-		if strings.Contains(rtxt, `"`+m+`"`) {
-			reader[m] = rrec{"", "marker"}
-		}
-	}
-	c.rep.Extra["reader_keywords"] = len(reader)
-
-	// data keywords of the writer must be handled by the reader with a compatible parser and the same field
-	ignorable := map[string]bool{"StartFontMetrics": true, "FamilyName": true, "Weight": true, "FontBBox": true, "StartKernData": true, "EndKernData": true, "EndFontMetrics": true}
-	verbOK := func(verb, parser string, field string) bool {
-		switch parser {
-		case "Atoi":
-			return verb == "%d" || verb == "%.0f"
-		case "ParseFloat":
-			return verb == "%d" || verb == "%.0f" || (verb == "%s" && strings.HasSuffix(field, "@FormatFloat")) || verb == "%g" || verb == "%v"
-		case "bool":
-			return verb == "%t"
-		case "word", "words":
-			return verb == "%s"
-		case "marker":
-			return true
-		}
-		return false
-	}
-	alias := map[string]string{"Ascent": "Ascender", "Descent": "Descender"}
-	nkw := 0
-	for _, w := range wrecs {
-		if ignorable[w.kw] {
-			continue
-		}
-		nkw++
-		r, ok := reader[w.kw]
-		if !ok {
-			c.fail("AFM-KEYWORDS", "afm.(*Metrics).Write", "keyword "+w.kw+" is understood by the reader", w.pos, "the writer emits keyword `"+w.kw+"`, which the reader does not handle: the field is lost when the file is read back")
-			continue
-		}
-		if w.verb == "" {
-			c.ok("AFM-KEYWORDS", "afm.(*Metrics).Write", "keyword "+w.kw+" is understood by the reader", w.pos, "section marker", "")
-			continue
-		}
-		field := strings.TrimSuffix(w.field, "@FormatFloat")
-		okField := true
-		okVerb := verbOK(w.verb, r.parser, w.field)
-		switch w.kw {
-		case "StartCharMetrics", "StartKernPairs":
-			okVerb = true // the count is informative; the reader does not use it
-		case "C", "WX", "N", "B", "L":
-			// per-glyph keys: field mapping is checked by AFM-FIELDS, the verb against the reader's parser for the key
-		case "KPX":
-			// KPX left right adjust: two words and a number parsed with Atoi
-			okVerb = (w.verb == "%s" && (field == "Left" || field == "Right")) || (w.verb == "%d" && field == "Adjust")
-		default:
-			rf := r.field
-			okField = rf == field && (field == w.kw || alias[field] == w.kw)
-		}
-		c.check(okField && okVerb, "AFM-KEYWORDS", "afm.(*Metrics).Write", fmt.Sprintf("keyword %s: written from %s with %s, read into %s with %s", w.kw, field, w.verb, r.field, r.parser), w.pos, "same field, compatible number format",
-			fmt.Sprintf("keyword %s: the writer formats field %s with %s, the reader stores field %s using %s — the value does not survive the round trip", w.kw, field, w.verb, r.field, r.parser))
-	}
-	c.floor("AFM-KEYWORDS", 18)
-
-	// ---- layout independence of the char metrics section
-	{
-		var cm *ast.IfStmt
-		ast.Inspect(rfd.Body, func(n ast.Node) bool {
-			if ifs, ok := n.(*ast.IfStmt); ok && types.ExprString(ifs.Cond) == "charMetrics" && cm == nil {
-				cm = ifs
-			}
-			return true
-		})
-		okLayout := false
-		why := "the char-metrics branch was not found"
-		if cm != nil {
-			why = ""
-			seenSplit := false
-			for _, st := range cm.Body.List {
-				s := nodeString(c, st)
-				if strings.Contains(s, `strings.Split(line, ";")`) {
-					seenSplit = true
-					break
-				}
-				if _, isIf := st.(*ast.IfStmt); isIf {
-					why = "glyph lines are filtered (`" + firstN(s, 60) + "…`) before they are split into key/value pairs: lines laid out differently by another writer are dropped"
-				}
-			}
-			if !seenSplit && why == "" {
-				why = "glyph lines are not split at `;`"
-			}
-			t := nodeString(c, cm.Body)
-			if why == "" && !(strings.Contains(t, "strings.Fields(keyVal)") && strings.Contains(t, "switch ff[0]")) {
-				why = "key/value pairs are not taken as white-space separated fields keyed by their first word"
-			}
-			okLayout = why == ""
-		}
-		c.check(okLayout, "AFM-LAYOUT", "afm.Read", "glyph lines are parsed key by key from `;`-separated fields, whatever their order and spacing", rfd.Pos(), "Split(line, \";\") → Fields → switch on the first word; no filter before", "AFM reader: "+why)
-		okHdr := strings.Contains(rtxt, "fields := strings.Fields(line)") && strings.Contains(rtxt, "switch fields[0]")
-		c.check(okHdr, "AFM-LAYOUT", "afm.Read", "header lines are keyed by their first white-space separated word", rfd.Pos(), "", "header keywords are not matched on the first field of the line")
-	}
+	c.afmTableRules(read, write, events)
+	c.afmCompleteRule(write, events)
 }
 
 func sortedKeys(m map[string]bool) []string {
@@ -574,4 +258,574 @@ func containsSync(t types.Type, d int) bool {
 		return containsSync(u.Elem(), d+1)
 	}
 	return false
+}
+
+// AFM keywords that carry derived or structural information the reader need not keep.
+var afmIgnorable = map[string]bool{"StartFontMetrics": true, "FamilyName": true, "Weight": true, "FontBBox": true, "StartKernData": true, "EndKernData": true, "EndFontMetrics": true}
+
+// keys of a character-metrics line and the fields their operands come from (AFM 4.1, section 8)
+var afmGlyphKeys = map[string][]string{
+	"C":  {""},
+	"CH": {""},
+	"WX": {"GlyphInfo.WidthX"},
+	"N":  {""},
+	"B":  {"GlyphInfo.BBox.LLx", "GlyphInfo.BBox.LLy", "GlyphInfo.BBox.URx", "GlyphInfo.BBox.URy"},
+	"L":  {"GlyphInfo.Ligatures", "GlyphInfo.Ligatures"},
+}
+
+func afmKeyword(format string) string {
+	ff := strings.Fields(format)
+	if len(ff) == 0 {
+		return ""
+	}
+	return ff[0]
+}
+
+// afmTableRules: AFM-KEYWORDS and AFM-LAYOUT.  Every line the writer produces for a data field
+// is instantiated with representative values and handed to one evaluated iteration of the
+// reader's line loop (ext_g_afm.go); the reader has to end up with the value in the field the
+// writer took it from.  The same for the layouts an independent writer may choose.
+func (c *Ctx) afmTableRules(read, write *ssa.Function, events []afmEvent) {
+	wname, rname := c.fname(write), c.fname(read)
+	m := c.newAfmReaderModel(read)
+	if m.H == nil {
+		c.undecided("AFM-KEYWORDS", rname, "line loop", read.Pos(), m.why)
+		return
+	}
+	// ---- the reader's modes
+	startCM, startKP := "StartCharMetrics 2", "StartKernPairs 2"
+	for _, e := range events {
+		if l, _, ok := afmSamples(e, 0); ok {
+			switch afmKeyword(e.format) {
+			case "StartCharMetrics":
+				startCM = l
+			case "StartKernPairs":
+				startKP = l
+			}
+		}
+	}
+	rc, rk := m.run(nil, startCM), m.run(nil, startKP)
+	okCM := rc.ok && !m.sameMode(rc.mode, nil) && len(rc.fields) == 0
+	okKP := rk.ok && !m.sameMode(rk.mode, nil) && !m.sameMode(rk.mode, rc.mode) && len(rk.fields) == 0
+	c.check(okCM, "AFM-KEYWORDS", wname, "keyword StartCharMetrics is understood by the reader", read.Pos(), "the line switches the reader to the character-metrics section", "after the line `"+startCM+"` the reader is not in its character-metrics section ("+rc.why+")")
+	c.check(okKP, "AFM-KEYWORDS", wname, "keyword StartKernPairs is understood by the reader", read.Pos(), "the line switches the reader to the kerning-pairs section", "after the line `"+startKP+"` the reader is not in its kerning-pairs section ("+rk.why+")")
+	if !okCM || !okKP {
+		return
+	}
+	cm, km := rc.mode, rk.mode
+	endOK := func(mode *afmMode, line string) string {
+		r := m.run(mode, line)
+		switch {
+		case !r.ok:
+			return r.why
+		case !m.sameMode(r.mode, nil):
+			return "the reader stays in the section"
+		case len(r.fields)+len(r.glyphs)+len(r.kern) != 0:
+			return "the line is taken as data"
+		}
+		return ""
+	}
+
+	// ---- every data line of the writer
+	var layoutHdr, layoutSec []string
+	var glyphEvents []afmEvent
+	nHdrVariants := 0
+	for _, e := range events {
+		kw := afmKeyword(e.format)
+		pos := e.pos()
+		switch {
+		case kw == "" || afmIgnorable[kw] || e.format == "%s":
+			continue
+		case kw == "StartCharMetrics" || kw == "StartKernPairs":
+			continue // above
+		case kw == "EndCharMetrics" || kw == "EndKernPairs":
+			mode := cm
+			if kw == "EndKernPairs" {
+				mode = km
+			}
+			line, _, ok := afmSamples(e, 0)
+			why := "the line could not be instantiated"
+			if ok {
+				why = endOK(mode, line)
+				for _, v := range afmLayoutVariants(line, false) {
+					if w := endOK(mode, v); w != "" && why == "" {
+						layoutSec = append(layoutSec, fmt.Sprintf("%q: %s", v, w))
+					}
+				}
+			}
+			c.check(why == "", "AFM-KEYWORDS", wname, "keyword "+kw+" is understood by the reader", pos, "the line ends the section", "the writer's line `"+line+"` does not end the reader's section: "+why)
+		case kw == "KPX":
+			line, vals, ok := afmSamples(e, 0)
+			if !ok {
+				c.undecided("AFM-KEYWORDS", wname, "keyword KPX", pos, "the operands of the formatted write could not be enumerated")
+				continue
+			}
+			want := []string{"KernPair.Left", "KernPair.Right", "KernPair.Adjust"}
+			why := ""
+			for i, a := range e.args {
+				if i < len(want) && a.field != "" && a.field != want[i] {
+					why = fmt.Sprintf("operand %d of the KPX line is taken from %s, the format prescribes %s there", i+1, a.field, want[i])
+				}
+			}
+			check := func(l string) string {
+				r := m.run(km, l)
+				if !r.ok {
+					return r.why
+				}
+				if len(r.kern) != 1 || len(r.fields) > 1 || len(r.glyphs) != 0 {
+					return fmt.Sprintf("%d kerning pairs are appended, expected one", len(r.kern))
+				}
+				for i, w := range want {
+					if i < len(vals) && !svEqual(r.kern[0][w[len("KernPair."):]], vals[i].expect) {
+						return fmt.Sprintf("the pair read back has %s = %s, expected %s", w, r.kern[0][w[len("KernPair."):]], vals[i].expect)
+					}
+				}
+				if !m.sameMode(r.mode, km) {
+					return "the reader leaves the kerning-pairs section"
+				}
+				return ""
+			}
+			if why == "" {
+				why = check(line)
+				for _, v := range afmLayoutVariants(line, false) {
+					if w := check(v); w != "" && why == "" {
+						layoutSec = append(layoutSec, fmt.Sprintf("%q: %s", v, w))
+					}
+				}
+			}
+			c.check(why == "", "AFM-KEYWORDS", wname, "keyword KPX: the pair written is the pair read back", pos, "line `"+line+"` evaluated in the reader's kerning-pairs section", "kerning pairs do not survive the round trip: "+why)
+		case afmGlyphKeys[kw] != nil && strings.Contains(e.format, ";"):
+			glyphEvents = append(glyphEvents, e)
+		default:
+			// a header line: keyword and the field(s) it is written from
+			var flds []string
+			for _, a := range e.args {
+				if strings.HasPrefix(a.field, "Metrics.") && !strings.Contains(a.field[len("Metrics."):], ".") {
+					flds = append(flds, a.field[len("Metrics."):])
+				} else {
+					flds = append(flds, "")
+				}
+			}
+			construct := fmt.Sprintf("keyword %s: written from %s, read back into the same field", kw, strings.Join(flds, ","))
+			why := ""
+			nv := 0
+			prev := ""
+			for variant := 0; variant < 2 && why == ""; variant++ {
+				line, vals, ok := afmSamples(e, variant)
+				if !ok {
+					why = "the operands of the formatted write could not be related to representative values"
+					break
+				}
+				if line == prev {
+					continue
+				}
+				prev = line
+				nv++
+				check := func(l string) string {
+					r := m.run(nil, l)
+					if !r.ok {
+						return "on the line `" + l + "` " + r.why
+					}
+					n := 0
+					for i, f := range flds {
+						if f == "" {
+							continue
+						}
+						n++
+						got, ok := r.fields[f]
+						if !ok {
+							return fmt.Sprintf("the line `%s` does not fill the field %s it was written from (fields filled: %v)", l, f, sortedSvKeys(r.fields))
+						}
+						if !svEqual(got, vals[i].expect) {
+							return fmt.Sprintf("the line `%s` leaves %s in field %s, expected %s", l, got, f, vals[i].expect)
+						}
+					}
+					if n == 0 {
+						return "none of the operands could be traced to a field of Metrics"
+					}
+					if len(r.fields) != n || len(r.glyphs)+len(r.kern) != 0 {
+						return fmt.Sprintf("the line `%s` also changes %v", l, sortedSvKeys(r.fields))
+					}
+					if !m.sameMode(r.mode, nil) {
+						return "the line `" + l + "` switches the reader to another section"
+					}
+					return ""
+				}
+				why = check(line)
+				if why == "" {
+					nHdrVariants++
+					for _, v := range afmLayoutVariants(line, false) {
+						if w := check(v); w != "" {
+							layoutHdr = append(layoutHdr, w)
+						}
+					}
+				}
+			}
+			c.check(why == "", "AFM-KEYWORDS", wname, construct, pos, fmt.Sprintf("%d representative line(s) evaluated in the reader", nv), "keyword "+kw+": the value does not survive the round trip: "+why)
+		}
+	}
+
+	// ---- character-metrics lines
+	specLine := "C 65 ; WX 500 ; N Abc ; B 1 2 3 4 ; L f ff ; L i fi ;"
+	glyphCheck := func(l string) string {
+		return afmGlyphMismatch(m.run(cm, l), afmParseGlyphLine(l))
+	}
+	if len(glyphEvents) > 0 {
+		line := ""
+		why := ""
+		for _, e := range glyphEvents {
+			l, _, ok := afmSamples(e, 0)
+			if !ok {
+				why = "the operands of the formatted write `" + e.format + "` could not be related to representative values"
+				break
+			}
+			line += l
+			// the operands under each key come from the fields the format prescribes
+			ai := 0
+			for _, grp := range strings.Split(e.format, ";") {
+				ff := strings.Fields(grp)
+				if len(ff) == 0 {
+					continue
+				}
+				nverb := len(afmVerbRe.FindAllString(grp, -1))
+				want := afmGlyphKeys[ff[0]]
+				for k := 0; k < nverb; k++ {
+					if ai < len(e.args) && want != nil && k < len(want) && want[k] != "" && e.args[ai].field != "" && e.args[ai].field != want[k] {
+						why = fmt.Sprintf("operand %d under key %s is taken from %s, the format prescribes %s", k+1, ff[0], e.args[ai].field, want[k])
+					}
+					ai++
+				}
+			}
+		}
+		if why == "" {
+			if w := glyphCheck(line); w != "" {
+				why = "the line `" + line + "`: " + w
+			}
+		}
+		for _, e := range glyphEvents {
+			var keys []string
+			for _, grp := range strings.Split(e.format, ";") {
+				if ff := strings.Fields(grp); len(ff) > 0 {
+					keys = append(keys, ff[0])
+				}
+			}
+			c.check(why == "", "AFM-KEYWORDS", wname, "glyph keys "+strings.Join(keys, " ")+": what is written is what is read back", e.pos(), "line `"+line+"` evaluated in the reader's character-metrics section", "character metrics do not survive the round trip: "+why)
+		}
+		specLine2 := line
+		if why == "" {
+			var bad []string
+			for _, v := range afmLayoutVariants(specLine2, true) {
+				if w := glyphCheck(v); w != "" {
+					bad = append(bad, fmt.Sprintf("%q: %s", v, w))
+				}
+			}
+			if len(bad) > 0 {
+				layoutSec = append(layoutSec, bad...)
+			}
+		}
+	}
+	c.floor("AFM-KEYWORDS", 16)
+
+	// ---- layout independence
+	{
+		var bad []string
+		if w := glyphCheck(specLine); w != "" {
+			bad = append(bad, fmt.Sprintf("%q: %s", specLine, w))
+		} else {
+			for _, v := range afmLayoutVariants(specLine, true) {
+				if w := glyphCheck(v); w != "" {
+					bad = append(bad, fmt.Sprintf("%q: %s", v, w))
+				}
+			}
+			// a line without a name defines nothing; a second line for the same glyph is ignored
+			if r := m.run(cm, "C 65 ; WX 500 ;"); !r.ok || len(r.glyphs) != 0 {
+				bad = append(bad, "a character-metrics line without a name adds a glyph")
+			}
+		}
+		c.check(len(bad) == 0, "AFM-LAYOUT", rname, "glyph lines are parsed key by key from `;`-separated fields, whatever their order and spacing", read.Pos(), "the line `"+specLine+"` and 7 other layouts of it evaluated in the reader: same glyph, same encoding slot", "AFM reader: a character-metrics line laid out differently is not understood: "+joinMax(bad, 2))
+		c.check(len(layoutHdr) == 0 && nHdrVariants > 0, "AFM-LAYOUT", rname, "header lines are keyed by their first white-space separated word", read.Pos(), fmt.Sprintf("%d header lines evaluated with tabs, runs of blanks and trailing white space", nHdrVariants), "header keywords are not recognised independently of the white space around them: "+joinMax(layoutHdr, 2))
+		// section keywords in the layouts of an independent writer
+		for _, sec := range []struct {
+			mode *afmMode
+			line string
+		}{{cm, "EndCharMetrics"}, {km, "EndKernPairs"}} {
+			if w := endOK(sec.mode, sec.line); w != "" {
+				layoutSec = append(layoutSec, fmt.Sprintf("%q: %s", sec.line, w))
+				continue
+			}
+			for _, v := range afmLayoutVariants(sec.line, false) {
+				if w := endOK(sec.mode, v); w != "" {
+					layoutSec = append(layoutSec, fmt.Sprintf("%q: %s", v, w))
+				}
+			}
+		}
+		for _, v := range append(afmLayoutVariants(startCM, false), afmLayoutVariants(startKP, false)...) {
+			r := m.run(nil, v)
+			want := cm
+			if strings.HasPrefix(v, "StartKern") {
+				want = km
+			}
+			if !r.ok || !m.sameMode(r.mode, want) {
+				layoutSec = append(layoutSec, fmt.Sprintf("%q does not start the section", v))
+			}
+		}
+		c.check(len(layoutSec) == 0, "AFM-LAYOUT", rname, "section keywords and data lines are recognised whatever white space surrounds their fields", read.Pos(), "Start…/End… lines, KPX and glyph lines evaluated with tabs, runs of blanks and trailing white space", "AFM reader: a line laid out differently by another writer is not understood, the data after it is lost: "+joinMax(layoutSec, 2))
+	}
+}
+
+// afmCompleteRule: AFM-COMPLETE.  Whether a line is written must not depend on the data, other
+// than through the absence of the very thing the line carries (an empty string or zero field
+// that the line alone would carry, a glyph that does not exist, an empty list, an error of an
+// earlier write).  In particular the loops that write glyphs and kerning pairs range over the
+// whole lists: over the field itself, the result of a query method, or a local list to which
+// every element was appended unconditionally.  A filter on the data (pairs whose adjustment is
+// zero, glyphs without a width, …) silently drops elements that the reader can never restore.
+func (c *Ctx) afmCompleteRule(write *ssa.Function, events []afmEvent) {
+	wname := c.fname(write)
+	funcs := c.afmWriterFuncs(write)
+	isWriterFn := map[*ssa.Function]bool{}
+	for _, f := range funcs {
+		isWriterFn[f] = true
+	}
+	callSites := func(f *ssa.Function) []ssa.CallInstruction {
+		var out []ssa.CallInstruction
+		for _, g := range funcs {
+			eachInstr(g, func(ins ssa.Instruction) {
+				if call, ok := ins.(ssa.CallInstruction); ok {
+					if call.Common().StaticCallee() == f {
+						out = append(out, call)
+					}
+				}
+			})
+		}
+		return out
+	}
+	isNilC := func(v ssa.Value) bool { return isNilConst(v) }
+	isErr := func(v ssa.Value) bool { return v.Type().String() == "error" }
+	nilable := func(v ssa.Value) bool {
+		switch v.Type().Underlying().(type) {
+		case *types.Pointer, *types.Map, *types.Slice, *types.Interface, *types.Signature:
+			return true
+		}
+		return false
+	}
+	lenArg := func(v ssa.Value) (ssa.Value, bool) {
+		v = origin(v)
+		if cv, ok := v.(*ssa.Convert); ok {
+			v = origin(cv.X)
+		}
+		call, ok := v.(*ssa.Call)
+		if !ok {
+			return nil, false
+		}
+		if b, ok := call.Call.Value.(*ssa.Builtin); ok && b.Name() == "len" && len(call.Call.Args) == 1 {
+			return call.Call.Args[0], true
+		}
+		return nil, false
+	}
+	var benign func(blk *ssa.BasicBlock, fields map[string]bool, seen map[any]bool) string
+	var complete func(s ssa.Value, seen map[any]bool) string
+	complete = func(s ssa.Value, seen map[any]bool) string {
+		s = origin(s)
+		if seen[s] {
+			return ""
+		}
+		seen[s] = true
+		switch x := s.(type) {
+		case *ssa.Const, *ssa.MakeSlice, *ssa.MakeMap, *ssa.Alloc, *ssa.Global:
+			return ""
+		case *ssa.Convert:
+			return complete(x.X, seen)
+		case *ssa.ChangeType:
+			return complete(x.X, seen)
+		case *ssa.Phi:
+			for _, e := range x.Edges {
+				if w := complete(e, seen); w != "" {
+					return w
+				}
+			}
+			return ""
+		case *ssa.Slice:
+			if _, isAl := x.X.(*ssa.Alloc); isAl {
+				return "" // a literal or a make
+			}
+			if x.Low == nil && x.High == nil {
+				return complete(x.X, seen)
+			}
+			if k, ok := constInt(x.High); x.Low == nil && ok && k == 0 {
+				return "" // s[:0]: an empty list to append to
+			}
+			return "only a part (" + c.valShape(x) + ") of the list is written"
+		case *ssa.UnOp:
+			if x.Op == token.MUL {
+				if _, _, ok := fieldPath(x.X); ok {
+					return ""
+				}
+				if al, ok := x.X.(*ssa.Alloc); ok {
+					// a local variable assigned several times
+					for _, r := range *al.Referrers() {
+						if st, ok := r.(*ssa.Store); ok && st.Addr == al {
+							if w := complete(st.Val, seen); w != "" {
+								return w
+							}
+						}
+					}
+					return ""
+				}
+				if _, ok := x.X.(*ssa.IndexAddr); ok {
+					return ""
+				}
+				if _, ok := x.X.(*ssa.FreeVar); ok {
+					return ""
+				}
+			}
+			return ""
+		case *ssa.Parameter:
+			fn := x.Parent()
+			idx := -1
+			for i, p := range fn.Params {
+				if p == x {
+					idx = i
+				}
+			}
+			for _, call := range callSites(fn) {
+				args := call.Common().Args
+				if idx >= 0 && idx < len(args) {
+					if w := complete(args[idx], seen); w != "" {
+						return w
+					}
+				}
+			}
+			return ""
+		case *ssa.Call:
+			if b, ok := x.Call.Value.(*ssa.Builtin); ok && b.Name() == "append" {
+				// every append that builds the list happens unconditionally
+				if w := benign(x.Block(), nil, seen); w != "" {
+					return "an element is only appended to the list written if " + w
+				}
+				return complete(x.Call.Args[0], seen)
+			}
+			return "" // the result of a query (GlyphList, maps.Keys, a sort helper …)
+		}
+		return ""
+	}
+	benign = func(blk *ssa.BasicBlock, fields map[string]bool, seen map[any]bool) string {
+		if seen[blk] {
+			return ""
+		}
+		seen[blk] = true
+		for _, cd := range domCondsOpt(blk, true) {
+			v := cd.v
+			shape := c.valShape(v)
+			if !cd.truth {
+				shape = "!(" + shape + ")"
+			}
+			onlyField := func(a afmArg) bool {
+				if a.field == "" {
+					return false
+				}
+				for f := range fields {
+					if f != a.field && !strings.HasPrefix(f, a.field+".") {
+						return false
+					}
+				}
+				return fields != nil
+			}
+			if m, ok := asCmp(cd); ok {
+				x, y := m.x, m.y
+				switch {
+				case (isErr(x) && isNilC(y)) || (isErr(y) && isNilC(x)):
+					continue
+				case (nilable(x) && isNilC(y)) || (nilable(y) && isNilC(x)):
+					continue
+				}
+				if s, ok := lenArg(x); ok {
+					if w := complete(s, seen); w != "" {
+						return w
+					}
+					continue
+				}
+				if s, ok := lenArg(y); ok {
+					if w := complete(s, seen); w != "" {
+						return w
+					}
+					continue
+				}
+				var other ssa.Value
+				var a afmArg
+				if _, isC := origin(y).(*ssa.Const); isC {
+					a, other = c.afmOrigin(x), y
+				} else if _, isC := origin(x).(*ssa.Const); isC {
+					a, other = c.afmOrigin(y), x
+				}
+				if other != nil && onlyField(a) {
+					continue
+				}
+				if other != nil && a.field != "" {
+					return "`" + shape + "` holds: a condition on the value of " + a.field
+				}
+				// index comparisons of counted loops: for i := 0; i < n; i++ with n = len(list)
+				return "`" + shape + "` holds: a condition the rule cannot relate to the absence of the data written"
+			}
+			// a boolean that is not a comparison
+			o := origin(v)
+			for {
+				u, ok := o.(*ssa.UnOp)
+				if !ok || u.Op != token.NOT {
+					break
+				}
+				o = origin(u.X)
+			}
+			if ex, ok := o.(*ssa.Extract); ok {
+				switch t := ex.Tuple.(type) {
+				case *ssa.Next:
+					if rg, ok := t.Iter.(*ssa.Range); ok {
+						if w := complete(rg.X, seen); w != "" {
+							return w
+						}
+					}
+					continue
+				case *ssa.Lookup, *ssa.TypeAssert:
+					continue
+				}
+			}
+			if a := c.afmOrigin(o); onlyField(a) {
+				continue
+			} else if a.field != "" {
+				return "`" + shape + "` holds: a condition on the value of " + a.field
+			}
+			return "`" + shape + "` holds: a condition the rule cannot relate to the absence of the data written"
+		}
+		// the function is itself called under conditions
+		fn := blk.Parent()
+		if fn != write {
+			for _, call := range callSites(fn) {
+				if w := benign(call.Block(), fields, seen); w != "" {
+					return w
+				}
+			}
+		}
+		return ""
+	}
+	n := 0
+	for _, e := range events {
+		kw := afmKeyword(e.format)
+		if kw == "" || afmIgnorable[kw] {
+			continue
+		}
+		n++
+		fields := map[string]bool{}
+		for _, a := range e.args {
+			if a.field != "" {
+				fields[a.field] = true
+			}
+		}
+		what := "keyword " + kw
+		if e.format == "%s" {
+			what = "pre-formatted line"
+		}
+		why := benign(e.call.Block(), fields, map[any]bool{})
+		c.check(why == "", "AFM-COMPLETE", wname, what+" is written whatever the data is", e.pos(), "guarded only by earlier write errors, by the absence of what it carries, and by loops over whole lists", "the line `"+e.format+"` is only written if "+why+": data the reader cannot restore is left out of the file")
+	}
+	c.floor("AFM-COMPLETE", 14)
 }
